@@ -216,7 +216,7 @@ pub fn generate_tree(
     let mut next_deq = VecDeque::new();
     next_deq.push_back(0);
 
-    for _ in 0..(n_leaves - 1) {
+    for _ in 0..n_leaves.saturating_sub(1) {
         let parent_id = if rng.gen_bool(0.5) {
             next_deq.pop_front()
         } else {
@@ -262,7 +262,7 @@ pub fn generate_yule(
 
     let mut parent_candidates = vec![root];
 
-    while tree.n_leaves() != n_leaves {
+    while tree.n_leaves() < n_leaves {
         // Choose parent
         let parent = *parent_candidates
             .choose(&mut rng)
